@@ -2,7 +2,7 @@
 what reached the OSC interface (typed tokens decoded from the real datagram bytes) and which ids the objects
 report.  Input: {"cases": [{"cfg": {...}, "hist": [op, ...]}]}; output {"traces": [{"case", "cfg", "ev": [...]}]}.
 An op is a dict: {"op": name, "h": receiver handle (1-based index of an object created earlier in the history),
-"tk": "obj"|"none"|"server", "t": target handle, "act": add-action name, "def": str, "a": [arg trees],
+"tk": "obj"|"none"|"server"|"root" (the integer 0), "t": target handle, "act": add-action name, "def": str, "a": [arg trees],
 "n": [ints], "cm": "none"|"list"|"func", "via": constructor variant}; {"op": "bind", "body": [ops], "raise_at": k}.
 Arg tree: {"k": "i"|"f"|"s"|"l"|"d"|"obj"|"map", "i": int (floats * 8; obj/map: handle), "s": str, "c": [trees]}.
 No verdicts here: TraceServerCmd.tla decides."""
@@ -185,6 +185,8 @@ class Runner:
             return self.objs[op['t'] - 1]
         if tk == 'server':
             return self.s
+        if tk == 'root':
+            return 0        # a plain integer node id: the root node
         return None
 
     def own_ids(self, o):
